@@ -128,6 +128,10 @@ MODELS = {
     "C12": MOVE,
     "C15": [],
     "C18": [STACK[0], ITER[2]],
+    "C14": [M("TempStackList", "MCTemp_3x2.cfg"), M("TempStackList", "MCTemp_2x3.cfg"), M("TempStackList", "MCTemp_4x2.cfg", tier="thorough", workers=8),
+            M("TempStackList", "MCTemp_regress_uninit.cfg", "witness"), M("TempStackList", "MCTemp_regress_detector.cfg", "witness"),
+            M("TempStackList", "MCTemp_regress_nifty.cfg", "witness"), M("TempStackList", "MCTemp_regress_cas.cfg", "witness"),
+            M("TempStackList", "MCTemp_wit_adopt.cfg", "witness"), M("TempStackList", "MCTemp_wit_race.cfg", "witness")],
     "C13": [M("Storage", "MCStorage.cfg"), M("Storage", "MCStorage_regress.cfg", "witness"), M("Storage", "MCStorage_wit.cfg", "witness")],
 }
 
